@@ -108,9 +108,18 @@ ScrollDown(s) ==   \* region down by one: the bottom line of the region is lost
   LET t == Top(s)  b == Bot(s) IN
   Bump(MarkDirty(SpliceRows(s, t, b, <<BlankRow(s)>> \o SubSeq(s.g, t + 1, b)), AllRows(s)))
 
-DoInd(s) == IF s.y = Bot(s) THEN ScrollUp(s) ELSE DoCud(s, -1)
-DoRi(s)  == IF s.y = Top(s) THEN ScrollDown(s) ELSE DoCuu(s, -1)
-DoLf(s)  == LET t == DoInd(s) IN IF LNM \in s.modes THEN DoCr(t) ELSE t
+\* Away from the margin, index / reverse index only move the cursor.  With the cursor OUTSIDE the region the
+\* implementation (like pyte) goes through CUD / CUU and therefore lands ON the margin (moving the wrong way);
+\* the statements only say "the next line" / "only move the cursor", so the alternative - one line towards the
+\* screen edge - is accepted as well (freedom point; xt selects it, the operational specification uses FALSE)
+DoIndX(s, xt) == IF s.y = Bot(s) THEN ScrollUp(s)
+                 ELSE IF xt /\ s.y > Bot(s) THEN [s EXCEPT !.y = Min2(s.y + 1, s.L - 1)] ELSE DoCud(s, -1)
+DoRiX(s, xt)  == IF s.y = Top(s) THEN ScrollDown(s)
+                 ELSE IF xt /\ s.y < Top(s) THEN [s EXCEPT !.y = Max2(s.y - 1, 0)] ELSE DoCuu(s, -1)
+DoLfX(s, xt)  == LET t == DoIndX(s, xt) IN IF LNM \in s.modes THEN DoCr(t) ELSE t
+DoInd(s) == DoIndX(s, FALSE)
+DoRi(s)  == DoRiX(s, FALSE)
+DoLf(s)  == DoLfX(s, FALSE)
 
 DoIl(s, n) ==
   IF Top(s) <= s.y /\ s.y <= Bot(s) THEN
@@ -179,9 +188,10 @@ Attach(s, cp) ==
      MarkDirty([s EXCEPT !.g[s.y][s.C].d = @ \o <<cp>>], {s.y - 1})
   ELSE s
 
+\* xt: the wrap's line feed from below the region goes one line down instead of onto the bottom margin
 \* zwWrap: whether a combining mark at the pending-wrap column wraps first
 \* (freedom point of C04; the operational specification uses TRUE, as the code does)
-DrawChar(s, cp0, wm, zwWrap) ==
+DrawCharX(s, cp0, wm, zwWrap, xt) ==
   LET cp == Translate(ActiveTable(s), cp0)
       w  == W(wm, cp)
       cm == w = 0 /\ Comb(wm, cp)
@@ -191,7 +201,7 @@ DrawChar(s, cp0, wm, zwWrap) ==
     LET \* 1. pending wrap
         s1 == IF s.x = s.C THEN
                  IF DECAWM \in s.modes THEN
-                    IF w > 0 \/ zwWrap THEN DoLf(DoCr(MarkDirty(s, {s.y}))) ELSE s
+                    IF w > 0 \/ zwWrap THEN DoLfX(DoCr(MarkDirty(s, {s.y})), xt) ELSE s
                  ELSE IF w > 0 THEN [s EXCEPT !.x = Max2(s.x - w, 0)] ELSE s
               ELSE s
         \* 2. insert mode
@@ -205,8 +215,10 @@ DrawChar(s, cp0, wm, zwWrap) ==
                   ELSE lead
       IN MarkDirty([s3 EXCEPT !.x = Min2(s2.x + w, s2.C)], {s2.y})
 
-DoDrawZ(s, text, wm, zwWrap) ==
-  LET r == FoldLeft(LAMBDA acc, cp : DrawChar(acc, cp, wm, zwWrap), s, text) IN MarkDirty(r, {r.y})
+DrawChar(s, cp0, wm, zwWrap) == DrawCharX(s, cp0, wm, zwWrap, FALSE)
+DoDrawX(s, text, wm, zwWrap, xt) ==
+  LET r == FoldLeft(LAMBDA acc, cp : DrawCharX(acc, cp, wm, zwWrap, xt), s, text) IN MarkDirty(r, {r.y})
+DoDrawZ(s, text, wm, zwWrap) == DoDrawX(s, text, wm, zwWrap, FALSE)
 DoDraw(s, text, wm) == DoDrawZ(s, text, wm, TRUE)
 
 -----------------------------------------------------------------------------
@@ -309,9 +321,9 @@ Render(s, wm) == [r \in 1..s.L |-> RenderFrom(s.g[r], wm, 1)]
 
 -----------------------------------------------------------------------------
 (* dispatcher: one abstract event -> next state                              *)
-ApplyZ(s, ev, zwWrap) ==
+ApplyX(s, ev, zwWrap, xt) ==
   LET op == ev.op IN
-  CASE op = "draw"    -> DoDrawZ(s, ev.s, ev.wm, zwWrap)
+  CASE op = "draw"    -> DoDrawX(s, ev.s, ev.wm, zwWrap, xt)
     [] op = "cuu"     -> DoCuu(s, P(ev, 1))
     [] op = "cud"     -> DoCud(s, P(ev, 1))
     [] op = "cuf"     -> DoCuf(s, P(ev, 1))
@@ -326,9 +338,9 @@ ApplyZ(s, ev, zwWrap) ==
     [] op = "ht"      -> DoHt(s)
     [] op = "hts"     -> DoHts(s)
     [] op = "tbc"     -> DoTbc(s, P(ev, 1))
-    [] op = "ind"     -> DoInd(s)
-    [] op = "lf"      -> DoLf(s)
-    [] op = "ri"      -> DoRi(s)
+    [] op = "ind"     -> DoIndX(s, xt)
+    [] op = "lf"      -> DoLfX(s, xt)
+    [] op = "ri"      -> DoRiX(s, xt)
     [] op = "il"      -> DoIl(s, P(ev, 1))
     [] op = "dl"      -> DoDl(s, P(ev, 1))
     [] op = "decstbm" -> DoDecstbm(s, P(ev, 1), P(ev, 2))
@@ -353,6 +365,7 @@ ApplyZ(s, ev, zwWrap) ==
     [] op = "cleardirty" -> [s EXCEPT !.dirty = {}]
     [] op \in {"bel", "da", "display"} -> s
     [] OTHER          -> s
+ApplyZ(s, ev, zwWrap) == ApplyX(s, ev, zwWrap, FALSE)
 Apply(s, ev) == ApplyZ(s, ev, TRUE)
 
 KnownOps == {"draw","cuu","cud","cuf","cub","cnl","cpl","cha","vpa","cup","bs","cr","ht","hts","tbc",
